@@ -6,7 +6,8 @@ claim("C03",
       "transcribed from the W3C grammar: validators equal the grammar predicates, ParseTraceState/Insert/Delete only ever produce lists with valid members, "
       "pairwise distinct keys and at most 32 members (type invariant), Insert/Delete order, drop-right-most and copy-on-write postconditions, ID validity, no run-time panic. "
       "The suite samples a few dozen headers; these obligations quantify over all strings and all list contents.",
-      _TB + "Not decided: round-trip identity String∘Parse / Inject∘Extract, package propagation (see evidence not_decided).",
+      _TB + "Also package propagation: TraceContext.extract returns a valid span context only for a traceparent of the shape vv-<32>-<16>-ff[-...] with lower-case hex digits only (upper case rejected), version != ff, and for version 00 nothing after the flags and flags <= 02; "
+      "encoding/hex.Decode is a library model. Not decided: round-trip identity String∘Parse / Inject∘Extract, Inject's layout (see evidence not_decided).",
       "DESIGN.md 4 C03")
 claim("C09",
       "Proof for all trace IDs, ratios and parent contexts: the ratio sampler's decision is the stated function of the low 8 ID bytes and the bound (bit-vector exact), "
